@@ -24,7 +24,7 @@ def build(rnd, tier, flags):
     r = gen.R(rnd)
     meta = progs.meta_of(flat)
     std = "f2008" if (meta["f08"] or g.o.f08) else r.pick(["f2003", "f2008"])
-    fo = layout.FixedOpts(semis=r.pick([0, 0, 15, 70]), trail_blanks=r.pick([0, 0, 30]), wrap=r.pick([72, 72, 72, 60, 40, 30, 20]), comments=r.pick([0, 20]),
+    fo = layout.FixedOpts(eol_variants=True, semis=r.pick([0, 0, 15, 70]), trail_blanks=r.pick([0, 0, 30]), wrap=r.pick([72, 72, 72, 60, 40, 30, 20]), comments=r.pick([0, 20]),
                           cont_comments=r.pick([0, 40]), blank_lines=r.pick([0, 10]), kwcase=r.chance(40),
                           extra_indent=r.chance(50), lit_cross=r.pick([0, 100]), lit_pad=r.pick([0, 40, 80]),
                           names=gen.ALL_NAMES,
@@ -32,7 +32,7 @@ def build(rnd, tier, flags):
     lay = layout.fixed_layout(flat, rnd, fo)
     meta["features"] = sorted(lay.features)
     meta["wrap"] = fo.wrap
-    lo = layout.FreeOpts(trail_blanks=r.pick([0, 0, 25]), cont=r.pick([0, 10]), comments=r.pick([0, 30]), blank_lines=r.pick([0, 20]), indent=True,
+    lo = layout.FreeOpts(eol_variants=True, trail_blanks=r.pick([0, 0, 25]), cont=r.pick([0, 10]), comments=r.pick([0, 30]), blank_lines=r.pick([0, 20]), indent=True,
                          kwcase=r.chance(30), names=gen.ALL_NAMES, excl=set(flags))
     flay = layout.free_layout(flat, rnd, lo)
     case = {"free": gen.canonical_source(flat), "fixed": lay.text, "free_laid": flay.text, "std": std, "meta": meta,
